@@ -266,7 +266,7 @@ class GroupsStream(Stream):
 
     def gen(self, rng, tier):
         yield from boundary_cases()
-        for _ in range(300 if tier == "quick" else 6000):
+        for _ in range(300 if tier == "quick" else 3000):
             yield gen_case(rng, 12 if rng.random() < 0.8 else 24)
 
     def run_impl(self, case):
